@@ -15,6 +15,7 @@ LEVEL_TEXT = ("Static structural proof of necessary conditions: (R11.1) every fu
               "absent table entry or conversion result is passed to float(), used arithmetically or dereferenced "
               "without a dominating None test. Which spellings are accepted, numeric values, linearity and prefix "
               "units are NOT decided.")
+LEVEL_EXTRA = 'Added after the seeded evaluation: (R11.3) number-then-unit is accepted only for non-prefix units and unit-then-number only for prefix units (complementary tests of unitPrefix); (R11.4) unit and prefix conversion factors are parsed by the same chain; (R11.5) a prefix name is never case-folded.'
 
 
 def run(ctx):
